@@ -213,7 +213,7 @@ PROPS["C20"] = {
     "assumptions": ["consecutive duplicate deliveries caused by duplicate filters are collapsed (the statement does not forbid them)",
                     "the gRPC transport is replaced by in-process fake streams whose Send honours the stream context",
                     "known finding C20/blocked-behind-unread-subscriber is excluded by construction: a third unread VAA for a subscriber that stopped reading is not published while the finding is listed"],
-    "units": [U("TestVerif_C20_Spy", "./cmd/spy", R(600, shards=4, timeout=900), R(20000, shards=16, timeout=1500), race=True, replay_tries=3, replay_repeat=4,
+    "units": [U("TestVerif_C20_Spy", "./cmd/spy", R(600, shards=4, timeout=900), R(20000, shards=16, timeout=1500), race=True, crash_is_violation=True, replay_tries=3, replay_repeat=4,
                 wallclock_fps=["C20/operation-blocked", "C20/not-delivered"])],
 }
 
@@ -244,6 +244,12 @@ PROPS["C17"]["units"].append(U("TestVerif_C14_Schedule", PROC, R(1500), R(30000,
 # C06 is anchored in observation.go as well (where the node applies the verification to gossip): the processor units
 # of C01 and C03 run under C06 too, with smaller budgets
 PROPS["C06"]["units"].append(U("TestVerif_C01_Safety", PROC, R(800), R(20000, shards=16, timeout=1500)))
+# C05 / C06: encoding and verification go through the same body serialisation and digest; the held-body and the
+# concurrent-use units of C04 run under both (an encoding or a verification that depends on what other goroutines
+# serialise at the same time is neither a round trip nor "accepts exactly valid signatures")
+PROPS["C05"]["units"].append(U("TestVerif_C04_Digest", "./pkg/vaa", R(10000), R(200000, shards=16, timeout=1500)))
+PROPS["C05"]["units"].append(U("TestVerif_C04_Concurrent", "./pkg/vaa", R(300), R(6000, shards=8, timeout=1500)))
+PROPS["C06"]["units"].append(U("TestVerif_C04_Concurrent", "./pkg/vaa", R(300), R(6000, shards=8, timeout=1500)))
 # C03: a signature of a non-member must not count towards completing a VAA either (the signatures kept per digest
 # outlive guardian-set changes): the C01 safety histories, whose every published VAA is verified against the set it
 # names, run under C03 too
